@@ -7,6 +7,7 @@ from .sorts import *      # noqa
 from . import types as Ty
 from . import front
 from .front import Unsupported
+from .state import tid
 from .state import (SV, State, const_sv, truthy, shape, field_type, KIND, CLS, cls_in, val_of, GHOSTS, merge_states,
                     only_fresh_stores)
 from .execcore import Outcome, Obligation, SeqHolder
@@ -35,6 +36,7 @@ class FunctionResult(object):
 class Engine(object):
     def __init__(self):
         self.nested = {}        # qual -> (FnInfo, captured state)
+        self.warnings = []
 
     def register_nested(self, fi, node, st):
         q = fi.qual + '.' + node.name
@@ -96,6 +98,7 @@ class Engine(object):
         """-> FunctionResult with all obligations generated from the current source of `qual`.
         `mutate`: optional callable(FunctionDef) applied to a deep copy of the AST (must-kill mutants)."""
         res = FunctionResult(qual)
+        del self.warnings[:]
         t0 = time.time()
         SP.BOUND[0] = bound
         del SP.BOUND_SIDE[:]
@@ -126,6 +129,8 @@ class Engine(object):
             res.error = '%s: %s' % (e.__class__.__name__, e)
         res.seconds = time.time() - t0
         res.bound = bound
+        res.warnings = list(self.warnings)
+        del self.warnings[:]
         res.bound_side = list(SP.BOUND_SIDE)
         SP.BOUND[0] = None
         if bound is not None:
@@ -156,7 +161,7 @@ class Engine(object):
             st.env[p] = SV(t, ty)
             st.assume(shape(st, t, ty))
             if p == kwarg and ('keys', p) in c.hints:
-                st.notes[('keys', str(t))] = c.hints[('keys', p)]
+                st.notes[('keys', tid(t))] = c.hints[('keys', p)]
         sev = SP.SpecEval(st, st.env, fi.modname, extra=ex.let_values)
         for name, text in c.lets.items():
             ex.let_values[name] = sev.value(text)
@@ -166,7 +171,7 @@ class Engine(object):
         res.pre = list(st.pc)
         outs = ex.exec_block(fi.node.body, st)
         if c.merge_exits:
-            outs = self.merge_exits(outs)
+            outs = self.merge_exits(outs, only_raises=(c.merge_exits == 'raises'))
         short = c.qual.split(':', 1)[1]
         modname = fi.modname
         for o in outs:
@@ -210,7 +215,7 @@ class Engine(object):
             o.name = '%s/%s' % (short, o.name)
             o.function = fi.qual
 
-    def merge_exits(self, outs):
+    def merge_exits(self, outs, only_raises=False):
         """exits through the same site are merged (symbolic exception class), like states at a join"""
         from .execcore import Exc
         groups, order = {}, []
@@ -230,7 +235,7 @@ class Engine(object):
             return c
         for key in order:
             grp = groups[key]
-            if len(grp) == 1 or key[0] not in ('raise', 'return'):
+            if len(grp) == 1 or key[0] not in ('raise', 'return') or (only_raises and key[0] != 'raise'):
                 res.extend(grp)
                 continue
             if key[0] == 'return':
